@@ -308,6 +308,19 @@ def check(ctx: Ctx) -> str:
             good = "if not isinstance(" in t_ and ", Namespace):" in t_ and "raise TemplateRuntimeError" in t_ and t_.index("Namespace") < t_.rindex(" = ")
             ctx.check(good, f"nsguard:{short_flags(p, 3)}", "compiler:CodeGenerator.visit_Assign", "namespace guard", f"an assignment with a namespace reference is compiled without the Namespace check:\n{t_[:200]}", "src/jinja2/compiler.py")
     ctx.need(ok_any, "no visit_Assign path with an NSRef found")
+    # both statement forms whose target the parser reads with_namespace=True need the guard:
+    # `{% set ns.a = v %}` (Assign) and `{% set ns.a %}...{% endset %}` (AssignBlock)
+    ps = repo.func("parser:Parser.parse_set")
+    built = sorted({astq.callee(c)[6:] for c in astq.calls(ps.node) if astq.callee(c).startswith("nodes.")})
+    ns_callers = [q for q in ("parse_set", "parse_for", "parse_with", "parse_import", "parse_from", "parse_macro", "parse_call_block") if any(k.arg == "with_namespace" and ast.unparse(k.value) == "True" for c in astq.calls(repo.func(f"parser:Parser.{q}").node) for k in c.keywords)]
+    ctx.check(ns_callers == ["parse_set"], "nsref:producers", "parser:Parser", f"statements accepting dotted targets: {ns_callers}", f"dotted assignment targets are expected from parse_set only, found {ns_callers}: each statement form needs the Namespace check in its visitor", ps.loc())
+    for cname in built:
+        entry = f"visit_{cname}"
+        items = res.get(entry)
+        ctx.need(items is not None, f"no emission paths for {entry}")
+        guarded = [sk for p, sk in items if p.outcome == "normal" and "if not isinstance(" in sk.text and ", Namespace):" in sk.text and "raise TemplateRuntimeError" in sk.text]
+        ctx.check(bool(guarded), f"nsguard:form:{cname}", f"compiler:CodeGenerator.{entry}", "no path emits the Namespace check",
+                  f"{entry} compiles a `{{% set %}}` form whose target may be `ns.attr` but never emits `if not isinstance(<ref>, Namespace): raise TemplateRuntimeError`: the store `ref['attr'] = value` then reaches any object of the render data that supports item assignment (a dict passed to render is modified, also in the immutable sandbox)", "src/jinja2/compiler.py")
     # the guard is emitted per distinct reference: the emitting loop runs over *all* NSRef
     # nodes and may only skip one already seen (continue) - an early exit leaves the
     # remaining targets unguarded, and `{% set ns.a, ns.b, d.x = ... %}` then stores into a
